@@ -226,7 +226,10 @@ func (s *vfSim) runMonitors(mc vfMonCfg) *vfMonOut {
 						low = time.Duration(m * float64(time.Millisecond))
 					}
 					res.count("c19_t3_after_ack_checked", 1)
-					if d := h.T - list[i].T; d < low {
+					// slack: the restart happens while the packet is processed, its end is what is recorded (yields in
+					// between take up to a few ms of virtual time each); d = 0: the timer had already fired and its
+					// callback was waiting for the association lock while the SACK was processed
+					if d := h.T - list[i].T; d > 0 && d < low-100*time.Millisecond {
 						res.violate("C19", "t3/expired-soon-after-ack", "side %d: T3-rtx expired at %v, only %v after a SACK that advanced the cumulative ack point to %d was processed (%v): the timer was not restarted for the new earliest outstanding chunk (an RTO is never below %v)", h.Side, h.T, d, list[i].Cum, list[i].T, low)
 					}
 
